@@ -5,6 +5,7 @@
 #include "Variogram/DirParam.hpp"
 #include "Geometry/GeometryHelper.hpp"
 #include "Enum/ECalcVario.hpp"
+#include "Db/DbGrid.hpp"
 using namespace vh;
 
 static Db* makeVDb(const std::vector<std::vector<double>>& X, int ndim, const std::vector<std::vector<double>>& Z,
@@ -101,6 +102,53 @@ int main()
     }
     else st.hit("refused");
     delete dir; delete db;
+  }
+  // ---- the grid-specialised algorithm against the general one on gridded data (same DbGrid, same pairs):
+  //      grid direction = increment vector g (in nodes); general direction = g scaled by the mesh, lag = its length,
+  //      tight angular and distance tolerances (on a small lattice only the exactly aligned pairs remain)
+  long ngrid = envLong("VERIF_GRID_CASES", thorough() ? 600 : 60);
+  for (long ic = 0; ic < ngrid; ic++)
+  {
+    int ndim = rng.coin(0.7) ? 2 : 3;
+    defineDefaultSpace(ESpaceType::RN, ndim);
+    VectorInt nx(ndim); VectorDouble dx(ndim), x0(ndim);
+    for (int d = 0; d < ndim; d++) { nx[d] = (int)rng.range(ndim == 2 ? 3 : 2, ndim == 2 ? 7 : 4); dx[d] = 0.25 * (double)rng.range(1, 8); x0[d] = rng.dyadic(-4, 4, 2); }
+    DbGrid* g = DbGrid::create(nx, dx, x0);
+    int nech = g->getSampleNumber(); int nvar = rng.coin(0.6) ? 1 : 2;
+    for (int a = 0; a < nvar; a++) { VectorDouble z(nech); for (auto& v : z) v = rng.coin(0.1) ? TEST : rng.dyadic(-8, 8, 2); g->addColumns(z, "z" + std::to_string(a + 1), ELoc::Z, a); }
+    if (rng.coin(0.3)) { VectorDouble w(nech); for (auto& v : w) { double u = rng.unit(); v = u < 0.4 ? 0.5 : (u < 0.7 ? 1. : 2.); } g->addColumns(w, "w", ELoc::W, 0); st.hit("grid_weights"); }
+    if (rng.coin(0.3)) { VectorDouble sl(nech); for (auto& v : sl) v = rng.coin(0.8) ? 1. : 0.; g->addColumns(sl, "sel", ELoc::SEL, 0); st.hit("grid_selection"); }
+    VectorInt gi(ndim, 0);
+    { int k = (int)rng.range(0, 5); if (k == 0) gi[0] = 1; else if (k == 1) gi[1] = 1; else if (k == 2) { gi[0] = 1; gi[1] = 1; } else if (k == 3) { gi[0] = 1; gi[1] = -1; } else if (k == 4) { gi[0] = 2; gi[1] = 1; } else gi[ndim - 1] = 1; }
+    int npas = (int)rng.range(2, 5);
+    int est = rng.coin(0.5) ? 0 : (int)rng.range(1, 4);
+    ECalcVario ecalc = est == 0 ? ECalcVario::VARIOGRAM : (est == 1 ? ECalcVario::ORDER4 : (est == 2 ? ECalcVario::POISSON : (est == 3 ? ECalcVario::MADOGRAM : ECalcVario::RODOGRAM)));
+    DirParam* dg = DirParam::createFromGrid(g, npas, gi);
+    VectorDouble codir(ndim); double len = 0.; for (int d = 0; d < ndim; d++) { codir[d] = gi[d] * dx[d]; len += codir[d] * codir[d]; } len = std::sqrt(len);
+    DirParam* dp = DirParam::create(npas, len, 0.125, 0.5, 0, 0, TEST, TEST, 0., VectorDouble(), codir);
+    if (dg && dp)
+    {
+      VarioParam vg; vg.addDir(*dg); VarioParam vq; vq.addDir(*dp);
+      Vario* v1 = Vario::computeFromDb(vg, g, ecalc); Vario* v2 = Vario::computeFromDb(vq, g, ecalc);
+      if (v1 && v2)
+      {
+        for (int a = 0; a < nvar; a++) for (int b = 0; b <= a; b++)
+        {
+          auto clean = [](const VectorDouble& v) { std::vector<double> o; for (double x : v) o.push_back((FFFF(x) || !std::isfinite(x)) ? -7777. : x); return o; };
+          std::vector<double> s1 = clean(v1->getSwVec(0, a, b, false)), s2 = clean(v2->getSwVec(0, a, b, false));
+          std::vector<double> h1 = clean(v1->getHhVec(0, a, b, false)), h2 = clean(v2->getHhVec(0, a, b, false));
+          std::vector<double> g1 = clean(v1->getGgVec(0, a, b, false, false, false)), g2 = clean(v2->getGgVec(0, a, b, false, false, false));
+          double sc = 1.; for (double x : g1) if (x != -7777.) sc = std::max(sc, std::fabs(x)); for (double x : h1) if (x != -7777.) sc = std::max(sc, std::fabs(x));
+          printf("t close grid_vs_general_pair_weights %s %s %s =>\n", dy(est == 2 ? std::ldexp(1., -40) : 0.).c_str(), vecD(s1).c_str(), vecD(s2).c_str());
+          printf("t close grid_vs_general_distances %s %s %s =>\n", dy(std::ldexp(sc, -36)).c_str(), vecD(h1).c_str(), vecD(h2).c_str());
+          printf("t close grid_vs_general_values %s %s %s =>\n", dy(std::ldexp(sc, -36)).c_str(), vecD(g1).c_str(), vecD(g2).c_str());
+          st.hit("grid_vs_general"); st.hit(std::string("grid_estimator_") + std::to_string(est));
+        }
+      }
+      else st.hit("grid_refused");
+      delete v1; delete v2;
+    }
+    delete dg; delete dp; delete g;
   }
   st.dump(stdout);
   return 0;
